@@ -369,6 +369,12 @@ class Hist:
         if self.hasher:
             br.compute_hashes(self.hasher, st1)
         blockmax = st1['blockmax']
+        if start > blockmax:
+            # state_sync refuses ("Error in the starting block"): exit 1 before anything is saved; the loop model does not apply
+            if r.rc == 0 or br.ser_content(st2) != c_toks:
+                self.chk.violation('start_beyond', 'sync -S %d beyond the parity size %d exits %d and %s the content file' % (start, blockmax, r.rc, 'changes' if br.ser_content(st2) != c_toks else 'keeps'),
+                                   dict(self.rinfo, history=self.log))
+            return
         mx = blockmax if (cnt == 0 or start + cnt >= blockmax) else start + cnt
         # `now` only matters for the info time: take it from the real result
         now = max([i['time'] for i in st2['info'] if i] + [0])
